@@ -191,4 +191,71 @@ theorem setItem_hidden_middle (cls : Cls) (kvs : List (Str × Val)) (q : Pos) (k
       simp [hasPathChar, slash],
     if_true, htok, hwalk, hhid, hnf, List.isEmpty_nil, Bool.not_true, hst]
 
+/-- **core of the middle case, any plain `P`**: tokens of `P`, the index token `[e]` (`0` / `-1`) on the single value at
+`P`, then the tokens of the plain path `k2/p2` of an existing node below it -/
+theorem setItem_hidden_middle_toks (cls : Cls) (kvs : List (Str × Val)) (P : Pos) (old : Val) (e : IdxSp) (k2 : Str)
+    (p2 : Pos) (c v t' : Val) (xp : Str) (fuel : Nat)
+    (hp : PlainPos P) (hP : getAt (.dict cls kvs) P = some old) (hs : isList old = false)
+    (he : e.val = 0 ∨ e.val = -1) (hp2 : PlainPos (Seg.key k2 :: p2)) (hc : getAt old (Seg.key k2 :: p2) = some c)
+    (hset : setAt (.dict cls kvs) (P ++ Seg.key k2 :: p2) v = some t')
+    (hq : startsWith xp ['?'] = false) (hpc : hasPathChar xp = true)
+    (htok : tokenize xp = mergedToks P ++ bracket e.text :: mergedToks (Seg.key k2 :: p2))
+    (hf : fuel ≥ 2 * P.length + 2 * p2.length + 4) :
+    setItem fuel (.dict cls kvs) xp v = (t', .ok ()) := by
+  have hlen := mergedToks_length_le P
+  obtain ⟨f', en, h1, _, hwalk⟩ := find_walk (.dict cls kvs) true (spellsF_merged P _ _ hp hP)
+    (bracket e.text :: mergedToks (Seg.key k2 :: p2)) (by simp) fuel [] slash true rfl (by omega)
+  obtain ⟨f, rfl⟩ : ∃ f, f' = f + 1 := ⟨f' - 1, by omega⟩
+  rw [List.nil_append] at hwalk
+  obtain ⟨r, hr, hfound⟩ := hidden_mid_find f (.dict cls kvs) en P (Seg.key k2 :: p2) old c e
+    (slash ++ renderPos P) hP hs he hp2 (by simp) hc (by simp; omega)
+  rw [hr] at hwalk
+  have hst := storeAt_found (.dict cls kvs) _ c r v t' hfound (hp.append hp2) hset
+  have hnf : r.notFound = Option.none := hfound.2.1
+  have hhid : hiddenPlace fuel (.dict cls kvs) r = .ok r := by
+    obtain ⟨_, _, pp, _, _, _, _, hpar, _⟩ := hfound
+    exact hiddenPlace_at _ _ _ _ hpar
+  unfold setItem
+  simp only [hq, Bool.false_and, Bool.false_eq_true, if_false, hpc, if_true, htok, hwalk, hhid, hnf, List.isEmpty_nil,
+    Bool.not_true, hst]
+
+/-- **`…P…/[e]/k2/…p2…`: the hidden index as a step of its own in the middle of the path** (`o/[0]/p/q`; `P` may end in
+a list element: `h[1]/[0]/p`) -/
+theorem setItem_hidden_middle_own (cls : Cls) (kvs : List (Str × Val)) (P : Pos) (old : Val) (e : IdxSp) (k2 : Str)
+    (p2 : Pos) (c v t' : Val) (fuel : Nat)
+    (hp : PlainPos P) (hP : getAt (.dict cls kvs) P = some old) (hs : isList old = false)
+    (he : e.val = 0 ∨ e.val = -1) (hp2 : PlainPos (Seg.key k2 :: p2)) (hc : getAt old (Seg.key k2 :: p2) = some c)
+    (hset : setAt (.dict cls kvs) (P ++ Seg.key k2 :: p2) v = some t')
+    (hf : fuel ≥ 2 * P.length + 2 * p2.length + 4) :
+    setItem fuel (.dict cls kvs) (slash ++ renderPos P ++ slash ++ bracket e.text ++ renderPos (Seg.key k2 :: p2)) v
+      = (t', .ok ()) := by
+  apply setItem_hidden_middle_toks cls kvs P old e k2 p2 c v t' _ fuel hp hP hs he hp2 hc hset _ _ _ hf
+  · simp [slash, startsWith, List.append_assoc]
+  · simp [hasPathChar, slash]
+  · rw [tokenize_then_pos _ k2 p2 hp2]
+    have : slash ++ renderPos P ++ slash ++ bracket e.text = ('/' :: renderPos P) ++ '/' :: bracket e.text := by
+      simp [slash]
+    rw [this, tokenize_append_slash, tokenize_render P hp, tokenize_bracket _ (hidden_cleanIdx e)]
+    simp
+
+/-- **`…q0…[i][e]/k2/…p2…`: a hidden index on a list element in the middle of the path** (`h[1][0]/p`) -/
+theorem setItem_hidden_middle_elem (cls : Cls) (kvs : List (Str × Val)) (q0 : Pos) (i : Nat) (old : Val) (e : IdxSp)
+    (k2 : Str) (p2 : Pos) (c v t' : Val) (fuel : Nat)
+    (hp : PlainPos (q0 ++ [Seg.idx i])) (hP : getAt (.dict cls kvs) (q0 ++ [Seg.idx i]) = some old)
+    (hs : isList old = false) (he : e.val = 0 ∨ e.val = -1) (hp2 : PlainPos (Seg.key k2 :: p2))
+    (hc : getAt old (Seg.key k2 :: p2) = some c)
+    (hset : setAt (.dict cls kvs) (q0 ++ [Seg.idx i] ++ Seg.key k2 :: p2) v = some t')
+    (hf : fuel ≥ 2 * (q0.length + 1) + 2 * p2.length + 4) :
+    setItem fuel (.dict cls kvs)
+      (slash ++ renderPos (q0 ++ [Seg.idx i]) ++ bracket e.text ++ renderPos (Seg.key k2 :: p2)) v = (t', .ok ()) := by
+  apply setItem_hidden_middle_toks cls kvs (q0 ++ [Seg.idx i]) old e k2 p2 c v t' _ fuel hp hP hs he hp2 hc hset _ _ _
+    (by simpa using hf)
+  · simp [slash, startsWith]
+  · simp [hasPathChar, slash]
+  · rw [tokenize_then_pos _ k2 p2 hp2, renderPos_snoc_idx, tokenize_append_bracket _ e.text (hidden_cleanIdx e),
+      ← renderPos_snoc_idx,
+      show slash ++ renderPos (q0 ++ [Seg.idx i]) = '/' :: renderPos (q0 ++ [Seg.idx i]) from rfl,
+      tokenize_render _ hp]
+    simp
+
 end N0.XPath
